@@ -371,7 +371,7 @@ class BeaconGateBlock(ConfigBlock):
     virtualalloc = ConfigBlock._enable
     virtualallocex = ConfigBlock._enable
     virtualprotect = ConfigBlock._enable
-    virtualprotextex = ConfigBlock._enable
+    virtualprotectex = ConfigBlock._enable
     virtualfree = ConfigBlock._enable
     getthreadcontext = ConfigBlock._enable
     setthreadcontext = ConfigBlock._enable
